@@ -24,7 +24,7 @@ REINIT_SIG = "C02-internal-reinit-followup-goes-to-uninitialised-scheduler"
 # -> the theorems and harness operations that cover it, or an explicit out-of-scope reason.  b = backends under whose define the
 # declaration exists.  ops: "<mode>" (any backend), "<backend>:<mode>", "script:<AsyncTask client script>", "fact:<probe>".
 _AT_T = ["asynctask_lifetime_safe", "asynctask_safe_src"]
-_SCHED_OPS = ["burst", "parkburst", "nested", "arena", "steal", "wakeup"]
+_SCHED_OPS = ["burst", "parkburst", "nested", "arena", "steal", "wakeup", "chain"]
 _ALLB = "dbg,int,omp,tbb"
 _TS = "detail/enkiTS/TaskScheduler.cpp"
 _C01 = "covered by C01 (parallel_for / the enkiTS scheduler model): not used by schedule(), async() or AsyncTask"
@@ -85,7 +85,7 @@ COVER = {
     ("schedule.h", "function-template", "schedule", "void (TASK_T)"): dict(b=_ALLB, thms=["schedule_exactly_once", "glue_code_shape_src"], ops=_SCHED_OPS + ["async"]),
     # enki::TaskScheduler (shared with C01): the members C02's theorems and scenarios rely on; the rest belongs to C01
     (_TS, "member-definition", "enki::TaskScheduler::AddTaskSetToPipe", "void (enki::ITaskSet *)"): dict(b="int", thms=["schedule_internal_one_piece", "schedule_internal_burst_exactly_once"], ops=["int:burst", "int:parkburst"]),
-    (_TS, "member-definition", "enki::TaskScheduler::SplitAndAddTask", "void (uint32_t, enki::SubTaskSet, uint32_t)"): dict(b="int", thms=["schedule_internal_one_piece", "schedule_internal_burst_bounded"], ops=["int:parkburst"]),
+    (_TS, "member-definition", "enki::TaskScheduler::SplitAndAddTask", "void (uint32_t, enki::SubTaskSet, uint32_t)"): dict(b="int", thms=["schedule_internal_one_piece", "schedule_internal_burst_bounded", "schedule_internal_wake_every_push_src"], ops=["int:parkburst", "int:chain"]),
     (_TS, "member-definition", "enki::TaskScheduler::TryRunTask", "bool (uint32_t, uint32_t &)"): dict(b="int", thms=["schedule_internal_no_uaf_src", "schedule_once_internal"], ops=["int:burst", "int:steal"]),
     (_TS, "member-definition", "enki::TaskScheduler::WakeThreads", "void (int32_t)"): dict(b="int", thms=["schedule_internal_no_lost_wakeup_src", "schedule_internal_wakeup_needs_both_fences"], ops=["int:wakeup"]),
     (_TS, "member-definition", "enki::TaskScheduler::WaitForTasks", "void (uint32_t)"): dict(b="int", thms=["schedule_internal_no_lost_wakeup_src"], ops=["int:wakeup"]),
@@ -402,6 +402,32 @@ def _run(ctx):
             pass
         except Exception as ex:
             stage_fail("scenario group [schedule() uses the CALLER's arena / a per-call objec] on the %s backend" % b, ex)
+        try:
+            # ---- dependency chains: k closures scheduled back to back, closure i waits (deadline 2 s) for closure i+1; caller only polls
+            if b != "debug":
+                for T, k in ((3, 2), (4, 3), (8, 5)):
+                    args = ["chain", str(T), str(k), str(ctx.pick(12, 60))]
+                    rc, lines, err = run_mode(b, args, timeout=120)
+                    f = kv(lines[-1]) if lines else {}
+                    ctx.count(int(f.get("completed", "0")) * k)
+                    if rc != 0 or not f:
+                        bad("schedule-crash", b, args, "harness rc=%d: %s" % (rc, san_summary(err)), "no crash, no hang", err)
+                    elif f.get("links_not_satisfied_within_2s") != "0":
+                        rc2, lines2, err2 = run_mode(b, args, timeout=120)        # confirm on a second run
+                        f2 = kv(lines2[-1]) if lines2 else {}
+                        if f2.get("links_not_satisfied_within_2s", "0") != "0":
+                            bad("schedule-dependency-chain", b, args, lines[-1] + "   [second run: %s]" % (lines2[-1] if lines2 else "-"),
+                                "%d closures scheduled back to back on %d tasking threads, closure i waiting for closure i+1: all complete although the "
+                                "caller only polls (observed: a waiting closure timed out after 2 s while %s threads of the process were asleep)"
+                                % (k, T, f.get("threads_asleep_meanwhile")))
+                        else:
+                            ctx.cov.setdefault("unconfirmed", []).append(lines[-1])
+                    else:
+                        ctx.nontriv(("chain", b, T, k))
+        except SkipStage:
+            pass
+        except Exception as ex:
+            stage_fail("scenario group [dependency chains] on the %s backend" % b, ex)
         try:
             # ---- a task queued by a busy worker (in that worker's own pipe) must be stolen by another worker
             if b != "debug":
@@ -747,7 +773,7 @@ def _run(ctx):
     ctx.cov["client_scripts"] = sorted(NGETS)
     ctx.rule = ("per backend (TBB, OpenMP, Internal, Debug; ASan+UBSan): schedule() bursts of %s closures owning heap state (exactly-once "
                 "after quiescence, caller idle); async() x %d over int/long string/vector/slow-logging type (+ outstanding futures); "
-                "teardown (internal, T in {1,2,3,8}: bursts with follow-up chains of depth 0..3 immediately followed by re-initialisation or process exit, per-task counters exactly 1); ownerthief (internal: tight loops of AsyncTask construct+get / construct+destroy / schedule+parallel_for(1): owner and thief race for the only queued item); arena (first schedule() of a functor type from inside a small tbb::task_arena, later ones from main must run within 2 s); TSan(OpenMP build): poll finished() then get() on string/vector; wakeup (one schedule() at a time, delay swept 0..100 us around the worker's spin-to-sleep transition, each closure must run within 2 s); parkburst (workers parked, 300/1000 pending closures > pipe size); nested (a scheduled closure schedules a same-type closure and waits in AsyncTask::get / parallel_for); AsyncTask<T> x %d repetitions x 6 client scripts x task durations {0,2,12} ms over 5 result types incl. a "
+                "chain (k closures scheduled back to back, closure i waits for closure i+1, caller only polls); teardown (internal, T in {1,2,3,8}: bursts with follow-up chains of depth 0..3 immediately followed by re-initialisation or process exit, per-task counters exactly 1); ownerthief (internal: tight loops of AsyncTask construct+get / construct+destroy / schedule+parallel_for(1): owner and thief race for the only queued item); arena (first schedule() of a functor type from inside a small tbb::task_arena, later ones from main must run within 2 s); TSan(OpenMP build): poll finished() then get() on string/vector; wakeup (one schedule() at a time, delay swept 0..100 us around the worker's spin-to-sleep transition, each closure must run within 2 s); parkburst (workers parked, 300/1000 pending closures > pipe size); nested (a scheduled closure schedules a same-type closure and waits in AsyncTask::get / parallel_for); AsyncTask<T> x %d repetitions x 6 client scripts x task durations {0,2,12} ms over 5 result types incl. a "
                 "lifetime-instrumented payload whose slot trace is validated by the extracted model; destroy-while-running x %d; "
                 "one-thread schedule. non-trivial = a case with a non-trivially-constructible result type or a task outliving "
                 "the constructor, or a burst > 1" % (bursts, areps, treps, dreps))
